@@ -17,7 +17,7 @@ fi
 checks="$*"
 if [ -z "$checks" ]; then checks=$(python3 -c "import json;print(' '.join(json.load(open('$V/seeded/$id/meta.json')).get('checks_expected',[])))"); fi
 for c in $checks; do
-  out=$(VERIF_REPO="$wt" ./run $c $tier 2>&1); rc=$?
+  out=$(VERIF_REPO="$wt" VERIF_EVIDENCE_DIR=/tmp/seedrun-evidence ./run $c $tier 2>&1); rc=$?
   echo "check $c $tier: rc=$rc $(echo "$out" | grep -E '^C[0-9]+ (quick|thorough)' | cut -c1-120)"
   echo "$out" | grep -E "check=" | cut -c1-200 | head -4
 done
